@@ -222,7 +222,7 @@ def parseSampleHdr (c : Bytes) : Option SampleHdr := do
 
 inductive FileKind where
   | sample (h : SampleHdr) (data : Bytes)       -- data = bytes of the window [140+2·start, +2·(end−start))
-  | program                                      -- parsed elsewhere
+  | program (content : Bytes)                    -- parsed by Smpl.AkaiProgram
 deriving Repr
 
 structure FileNode where
@@ -264,7 +264,7 @@ def realizeFile (p : Part) (e : FileEntry) (programOk : Bytes → Bool) : Option
           else Smpl.ShortRead.readForward ((segmentHoley p path).clip e.size) (SAMPLE_HEADER_BYTES + 2 * h.start) size.toNat
         ⟨e.name, e.ftype, .sample h data⟩
     else if isProgramType e.ftype then
-      if programOk content then some ⟨e.name, e.ftype, .program⟩ else none
+      if programOk content then some ⟨e.name, e.ftype, .program content⟩ else none
     else none
 
 structure VolNode where
